@@ -235,6 +235,10 @@ func obtainStructValueType(o interface{}) (bool, reflect.Value, reflect.Type) {
 	case reflect.Struct:
 		return true, v, t
 	case reflect.Ptr:
+		// a nil pointer or a pointer to something else than a struct has no fields to look at
+		if v.IsNil() || v.Elem().Kind() != reflect.Struct {
+			return false, v, nil
+		}
 		return true, v.Elem(), t.Elem()
 	default:
 		return false, v, nil
